@@ -192,7 +192,7 @@ End SeekE2E.
 From FlacWriters Require Import Params_proofs Writers_proofs New_proofs Run_proofs.
 From FlacE2E Require Import Sample SampleE2E Success.
 
-Theorem sample_writer_seekpoints : forall o L md5, (forall l, length (md5 l) = 16%nat) ->
+Theorem sample_writer_seekpoints_full : forall o L md5, (forall l, length (md5 l) = 16%nat) ->
   forall p rate bps wo ch total w chunks iv,
   options_wf wo -> o_seektable_interval wo = Some iv ->
   sample_new p [] wo rate bps ch total = Ok w ->
@@ -204,6 +204,9 @@ Theorem sample_writer_seekpoints : forall o L md5, (forall l, length (md5 l) = 1
     sample_run (encB o L rate bps) md5 p w chunks = Ok f /\
     CS.read_metadata_min (f_stream f) = Some (conv_si (f_si f), audio) /\
     concat (map CS.interleave_frame blocks) = firstn (N.to_nat ch * (length (concat chunks) / N.to_nat ch)) (concat chunks) /\
+    (Forall (EP.block_ok (conv_si (f_si f)) bps) blocks /\ EP.short_only_last (conv_si (f_si f)) blocks /\
+     FlacCodec.Ast.si_total (conv_si (f_si f)) = EP.blocks_samples blocks /\
+     FlacCodec.Ast.si_channels (conv_si (f_si f)) = ch /\ EP.blocks_samples blocks < 2 ^ 36) /\
     forall pts, first_seektable (f_blocks f) = Some pts ->
       forall s b m, In (Defined s b m) pts ->
         exists pre blk post h rest, blocks = pre ++ blk :: post /\ s = EP.blocks_samples pre /\ m = E.block_len blk /\
@@ -226,7 +229,7 @@ Proof.
   destruct Hr as (R & B1 & B2 & C1 & C2 & Hiv0 & t & Hn0).
   destruct (sample_run_succeeds o L md5 Hmd p rate bps ch R B1 B2 C1 C2 wo total w chunks Hwf Hnew Hfit HW Hlen Htot) as (f & Hrun & Hcf).
   destruct (e2e_sample_pcm o L md5 Hmd p rate bps wo ch total w chunks f Hwf Hnew Hrun Hfit Hlen)
-    as (blocks & _ & Hcat & Hok & _ & _ & _ & Hlt & _ & Hreach).
+    as (blocks & _ & Hcat & Hok & Hshape & Htotal & Hsc & Hlt & _ & Hreach).
   destruct (sample_run_spec (encB o L rate bps) md5 p [] wo rate bps ch total w chunks f Hwf Hnew Hrun Hcf)
     as (cs & r & _ & I & S & Fn & Se & _ & _ & _ & Hfin).
   assert (Ei : e_interval (f_enc f) = Some iv) by (destruct Se as (_ & E & _); rewrite E; exact Hiv0).
@@ -246,6 +249,30 @@ Proof.
                 FlacCodec.Ast.h_number h = N.of_nat (length pre)).
   { intros pts Hp. apply (e2e_seekpoints o L md5 Hmd p rate bps wo ch t (sw_enc w) blocks (f_enc f) f iv pts Hn0 Hreach I S Fn Ei Hfin Hp Hok Hcnt). lia. }
   destruct (finished_stream_form o L md5 Hmd p rate bps wo ch t (sw_enc w) blocks (f_enc f) f Hn0 Hreach Hfin ltac:(lia)) as (audio & Hmeta & _).
-  exists f, blocks, audio. split; [exact Hrun|]. split; [exact Hmeta|]. split; [exact Hcat|].
+  exists f, blocks, audio. split; [exact Hrun|]. split; [exact Hmeta|]. split; [exact Hcat|]. split; [auto|].
   intros pts Hp. destruct (Hseek pts Hp) as (audio' & Hmeta' & H). rewrite Hmeta in Hmeta'. injection Hmeta' as <-. exact H.
+Qed.
+
+Theorem sample_writer_seekpoints : forall o L md5, (forall l, length (md5 l) = 16%nat) ->
+  forall p rate bps wo ch total w chunks iv,
+  options_wf wo -> o_seektable_interval wo = Some iv ->
+  sample_new p [] wo rate bps ch total = Ok w ->
+  forallb (FlacCodec.Wf.fits bps) (concat chunks) = true ->
+  let W := N.of_nat (length (concat chunks)) / ch in
+  1 <= W -> N.of_nat (length (concat chunks)) < 2 ^ 36 ->
+  match total with Some T => T = ch * W | None => True end ->
+  exists f blocks audio,
+    sample_run (encB o L rate bps) md5 p w chunks = Ok f /\
+    CS.read_metadata_min (f_stream f) = Some (conv_si (f_si f), audio) /\
+    concat (map CS.interleave_frame blocks) = firstn (N.to_nat ch * (length (concat chunks) / N.to_nat ch)) (concat chunks) /\
+    forall pts, first_seektable (f_blocks f) = Some pts ->
+      forall s b m, In (Defined s b m) pts ->
+        exists pre blk post h rest, blocks = pre ++ blk :: post /\ s = EP.blocks_samples pre /\ m = E.block_len blk /\
+          FlacCodec.Dec.dec_frame (Some (conv_si (f_si f))) (fun _ => Ok tt) (skipn (N.to_nat b) audio) = Ok (h, blk, rest) /\
+          FlacCodec.Ast.h_number h = N.of_nat (length pre).
+Proof.
+  intros o L md5 Hmd p rate bps wo ch total w chunks iv Hwf Hiv Hnew Hfit W HW Hlen Htot.
+  destruct (sample_writer_seekpoints_full o L md5 Hmd p rate bps wo ch total w chunks iv Hwf Hiv Hnew Hfit HW Hlen Htot)
+    as (f & blocks & audio & A & B & C & _ & D).
+  exists f, blocks, audio. auto.
 Qed.
